@@ -486,6 +486,84 @@ def check_missing(case):
                     form=case["form"], position=case["pos"], p=p, where=case["where"])
 
 
+# ------------------------------------------------------------------ a fitted detector given a too short batch / a degenerate chunk
+
+
+def fitted_cells(tier):
+    """(i) A detector fitted on admissible data is given a batch shorter than its documented minimum through predict / transform /
+    transform_scores: ValueError. (ii) A detector with a covariance score and a tuned threshold is updated with a chunk in which a
+    channel is stuck: the documented not-positive-definite RuntimeError (or success) - through every entry point, not another class."""
+    dets = [("PELT", {"min_segment_length": m}, 2 * m) for m in (1, 2, 5)] + \
+           [("MovingWindow", {"bandwidth": b}, 2 * b) for b in (1, 3, 10)] + \
+           [("SeededBinarySegmentation", {"min_segment_length": m, "max_interval_length": 4 * m}, 2 * m) for m in (1, 3)] + \
+           [("CircularBinarySegmentation", {"min_segment_length": m, "max_interval_length": 4 * m}, 2 * m) for m in (1, 3)] + \
+           [("CAPA", {"min_segment_length": m}, m) for m in (2, 5)] + [("MVCAPA", {"min_segment_length": m}, m) for m in (2, 5)] + \
+           [("StatThresholdAnomaliser", {"change_detector": {"cls": "PELT", "min_segment_length": 3}}, 6)]
+    for det, params, n_min in dets:
+        for short in sorted({n_min - 1, max(1, n_min - 2), 1}):
+            if short >= n_min:
+                continue
+            for method in ("predict", "transform", "transform_scores", "update_predict"):
+                yield {"kind": "short_batch", "detector": det, "params": params, "n_min": n_min, "short": short, "method": method}
+    for det, params in (("MovingWindow", {"change_score": {"cls": "GaussianCovCost"}, "bandwidth": 4, "threshold_scale": None}),
+                        ("SeededBinarySegmentation", {"change_score": {"cls": "GaussianCovCost"}, "min_segment_length": 4, "max_interval_length": 16,
+                                                      "threshold_scale": None, "level": 0.05}),
+                        ("CircularBinarySegmentation", {"anomaly_score": {"cls": "GaussianCovCost"}, "min_segment_length": 4, "max_interval_length": 16,
+                                                        "threshold_scale": None, "level": 0.05}),
+                        ("PELT", {"cost": {"cls": "GaussianCovCost"}, "min_segment_length": 4})):
+        for method in ("update", "update_predict", "predict", "transform", "fit_predict"):
+            yield {"kind": "stuck_chunk", "detector": det, "params": params, "method": method}
+
+
+def check_fitted(case):
+    import pandas as pd
+
+    det_name = case["detector"]
+    p = 1 if det_name == "StatThresholdAnomaliser" else 2
+    if case["kind"] == "short_batch":
+        n_fit = case["n_min"] + 17
+        good = pd.DataFrame(make_data("generic", n_fit, p, False))
+        short = pd.DataFrame(make_data("generic", case["short"], p, False), index=pd.RangeIndex(n_fit, n_fit + case["short"]))
+        det = K.build(K.detector_spec(det_name, case["params"]))
+        method = case["method"]
+        if method == "transform_scores" and det_name not in ("PELT", "MovingWindow", "CAPA", "MVCAPA"):
+            method = "predict"
+        try:
+            with sut(f"{det_name}.{method} on a batch shorter than the documented minimum", allowed=(ValueError,)):
+                det.fit(good)
+                if method == "update_predict":
+                    # (the update half refits on the combined, admissible data; the predict half sees the short chunk)
+                    det.update_predict(short)
+                else:
+                    getattr(det, method)(short)
+        except ValueError:
+            return {"nontrivial": True, "classes": [f"kind=short_batch", f"method={method}", "n=min-" + str(case["n_min"] - case["short"])]}
+        raise Violation("a fitted detector accepted a batch shorter than the documented minimum length (ValueError expected)",
+                        detector=det_name, params=case["params"], minimum=case["n_min"], length=case["short"], method=method)
+    # stuck chunk
+    n = 40
+    good = make_data("generic", n, 2, False)
+    chunk = make_data("generic", 16, 2, False) * 0.7 + 0.3
+    chunk[3:12, 1] = 20.0  # one channel is stuck for 9 samples
+    det = K.build(K.detector_spec(det_name, case["params"]))
+    method = case["method"]
+    gdf = pd.DataFrame(good)
+    cdf = pd.DataFrame(chunk, index=pd.RangeIndex(n, n + 16))
+    try:
+        with sut(f"{det_name}.{method} with a chunk in which a channel is stuck", allowed=(RuntimeError,)):
+            if method == "fit_predict":
+                det.fit_predict(cdf)
+            else:
+                det.fit(gdf)
+                getattr(det, method)(cdf)
+        outcome = "ran"
+    except RuntimeError as e:
+        if "positive definite" not in str(e):
+            raise Violation(f"unexpected RuntimeError: {e}")
+        outcome = "documented_RuntimeError"
+    return {"nontrivial": outcome == "documented_RuntimeError", "classes": ["kind=stuck_chunk", f"method={method}", f"outcome={outcome}"]}
+
+
 FACETS = [
     Facet(name="valid_grid", kind="enumerate", enumerate=valid_enumerate, check=check_valid_cell,
           timeout_is_violation=True, time_limit=20.0, exhaustive=True, exhaustive_tiers=("thorough",),
@@ -503,6 +581,13 @@ FACETS = [
                 "companions (every penalty family and a user callable, other savings / scorers, tuned thresholds); "
                 "ValueError must be raised at some stage; every cell is non-trivial"),
           shards_quick=4, shards_thorough=4),
+    Facet(name="fitted_detector_entry_points", kind="enumerate", enumerate=fitted_cells, check=check_fitted, exhaustive=True,
+          timeout_is_violation=True, time_limit=20.0,
+          rule=("(i) all seven detectors (several minimum lengths) fitted on admissible data, then predict / transform / transform_scores / update_predict "
+                "with a batch of minimum-1, minimum-2 and 1 rows: ValueError expected; (ii) covariance-scored detectors (tuned thresholds) given a chunk "
+                "in which a channel is stuck through update / update_predict / predict / transform / fit_predict: the documented RuntimeError or "
+                "completion, no other exception class; non-trivial = rejected / documented error raised"),
+          shards_quick=8, shards_thorough=8),
     Facet(name="numpy_scalar_hyperparameters", kind="enumerate", enumerate=numpy_scalar_cells, check=check_numpy_scalars,
           exhaustive=True, timeout_is_violation=True, time_limit=20.0,
           rule=("11 valid configurations (boundary values included) of the seven detectors with every numeric hyper-parameter "
